@@ -319,8 +319,22 @@ def run(ctx, canary=False):
                 total = total * rng.choice([0.5, 3.0])
                 model.total = total
                 info["total_reassigned_to"] = total
+            mag = rng.choice([1.0, 1.0, 400.0, 1000.0])       # log-potentials far outside the range of exp(), in conflict between regions
+            info["potential_scale"] = mag
+            # structural zeros reach the oracles as -inf log-potentials (LocalInference(structural_zeros=...)): single cells, or a
+            # whole value of one attribute of an input clique ("slice")
+            minf = rng.choice(["", "", "", "cell", "slice"]) if mag == 1.0 else ""
+            info["minus_inf"] = minf
             for call in range(2):       # messages persist between calls: the second call starts warm
-                pv = CliqueVector({c: Factor(dom.project(c), np.array([rng.uniform(-3, 3) for _ in range(dom.size(c))])) for c in keys})
+                pv = CliqueVector({c: Factor(dom.project(c), mag * np.array([rng.uniform(-3, 3) for _ in range(dom.size(c))])) for c in keys})
+                if minf:
+                    tgt = [c for c in keys if len(c) >= 2 and any(set(c) == set(q) for q in cliques) and dom.size(c) >= 4 and dom.project(c).shape[1] >= 2]
+                    if tgt:
+                        arr = pv[tgt[0]].values
+                        if minf == "cell":
+                            arr[(0,) * arr.ndim] = -np.inf
+                        else:
+                            arr[(slice(None), 0) + (slice(None),) * (arr.ndim - 2)] = -np.inf
                 with np.errstate(all="ignore"):
                     mu = model.belief_propagation(pv)
                 for c in keys:
@@ -332,7 +346,7 @@ def run(ctx, canary=False):
             ctx.violation("approximate oracle raised %r" % ex, info, {"kind": "crash", "oracle": oracle})
             continue
         if bad:
-            ctx.violation("pseudo-marginals are not normalised: " + "; ".join(bad[:2]), info, {"kind": "normalisation", "oracle": oracle})
+            ctx.violation("pseudo-marginals are not normalised: " + "; ".join(bad[:2]), info, {"kind": "normalisation", "oracle": oracle, "has_minus_inf": bool(info.get("minus_inf"))})
     ctx.sample({"tree factor graph": trees[0] if trees else None, "D_star": dstar.get(1)})
     ctx.assumptions += ["convex FactorGraph (pairwise-convex) needs cvxopt: excluded", "GBP.tla covers two-level RIP structures; multi-level RIP "
                         "structures are compared numerically only", "200 damped sweeps stand for the fixed point (error halves per sweep)"]
